@@ -4,7 +4,7 @@
 # properties given) against it and records which obligations report a violation in seeded/<id>/caught.txt.
 S="$1"; shift
 P=$(echo "$S" | cut -d- -f1)
-WT=/tmp/mut
+WT=${SEED_WT:-/tmp/mut}
 [ -d $WT ] || git -C /repo worktree add -q --detach $WT HEAD
 cd $WT && git checkout -q -- . && git checkout -q --detach "$(git -C /repo rev-parse HEAD)" || exit 2
 git apply /verif/seeded/$S/patch.diff || { echo "patch does not apply on $(git -C /repo rev-parse --short HEAD)" > /verif/seeded/$S/caught.txt; exit 2; }
